@@ -137,6 +137,14 @@ def gen_program(rng, ntokens, maxlen):
         if rng.random() < 0.3:
             # a node-adding step between the split and the raising
             wanted.insert(3, rng.choice(["binarize", "binarize", "binarize_bare", "add_topnode"]))
+        if rng.random() < 0.2:
+            # a punctuation step tears the tree open again: second round of the pipeline
+            mk = rng.choice(["negra_mark_heads", "mark_heads_negra", "mark_heads_ptb"])
+            if rng.random() < 0.5 and wanted[-1] == "raising":
+                wanted.pop()
+            wanted += [rng.choice(["punctuation_root", "punctuation_root", "punctuation_verylow"]),
+                       mk, "boyd_split", "raising"]
+            maxlen = max(maxlen, 8)
         n = max(n, len(wanted))
     elif rng.random() < 0.2:
         # constituency preprocessing: heads, top node and punctuation in some order, binarize
